@@ -185,6 +185,15 @@ def check_case(acc: Acc, case: dict) -> None:
 
 
 SPECIAL = [
+	# soft keywords used as identifiers (their tokens are not NAME tokens)
+	'match = 1\ncase = match + 1\nx = obj.match(case)\ndef match_all(match: int, case: str = "c") -> int:\n\treturn match\n',
+	'class K:\n\tmatch: int\n\tdef case(self) -> int:\n\t\treturn self.match\n',
+	# characters str.splitlines() breaks at (and lark does not) inside strings and comments; CR LF files with comments and multi-line strings
+	"s = 'a\x0bb'\nt = 'c\x0cd' + s\nu = 'e\x1cf\x1dg\x1eh'\nv = 'i\x85j\u2028k\u2029l'\nw = u + v\n",
+	"# note \x0b more \x85 and \u2028 more\nz = 1  # tail \x1c note\nw = z\n",
+	'x = 1  # note\r\ny = x\r\n# only a comment\r\nz = y\r\n',
+	'def f() -> str:\r\n\t"""doc line one\r\n\tline two\r\n\t"""\r\n\ts = \'\'\'a\r\nb\'\'\'\r\n\treturn s\r\n',
+	's = """first\n\nthird  \n\t\n"""\nt = s\n',
 	# the file ends inside a block, on a line of nothing but indentation, without a final line break
 	'class A:\n\tdef g(self) -> None:\n\t\tpass\n\t', 'def f() -> None:\n\tpass\n\t\t', 'if a:\n\tx = 1\n    ', 'x = 1', 'x = 1\n\n\n',
 	# physical lines of more than a thousand (and exactly a thousand) columns, a module of more than a thousand lines
